@@ -324,6 +324,14 @@ def _fold_empty_fill(body: list) -> list:
     return out
 
 
+def _membership_container(t):
+    """`x in frozenset(L)` / `set(L)` / `tuple(L)` / `list(L)` holds exactly when `x in L` holds (hashable elements compared by ==)."""
+    while isinstance(t, tuple) and len(t) == 4 and t[0] == "call" and t[1] in (("global", "frozenset"), ("global", "set"), ("global", "tuple"), ("global", "list")) \
+            and len(t[2]) == 1 and not t[3] and t[2][0][0] != "star":
+        t = t[2][0]
+    return t
+
+
 def negate(t):
     """``not t`` in negation normal form: the negation is pushed through and/or (de Morgan) and into ==, !=, in, is - never into an
     ordered comparison (``not a < b`` is not ``a >= b`` for NaN), so `not (x == c or x == e)` and `x != c and x != e` are one term."""
@@ -658,6 +666,8 @@ class FunctionTerms:
             if isinstance(fn, tuple) and fn[0] == "lambda" and len(fn[1]) == len(actual):
                 mapping = dict(zip(fn[1], actual))
                 return _substitute(fn[2], mapping)
+            if isinstance(fn, tuple) and fn[0] == "attr" and fn[2] == "__contains__" and len(actual) == 1:
+                return ("cmp", "in", actual[0], _membership_container(fn[1]))          # C.__contains__ as a predicate is `x in C`
             return ("call", fn, tuple(actual), ())
         if f[1] == "map" and len(args) >= 2 and not any(a[0] == "star" for a in args):
             # itertools.repeat(x) as one of several iterables is the constant x for every element of the others
@@ -1301,6 +1311,9 @@ class FunctionTerms:
                 members = self.prog.int_enum_members(self.prog.chase(args[0][1]))
                 if members is not None:
                     return ("const", len(members))
+            # C.__contains__(x) is `x in C`
+            if f[0] == "attr" and f[2] == "__contains__" and len(args) == 1 and not kws and args[0][0] != "star":
+                return ("cmp", "in", args[0], _membership_container(f[1]))
             # functools.reduce(lambda acc, x: F(acc, x), (e1, .., ek), init) over a display of at most 6 elements is F(..F(F(init, e1), e2).., ek)
             if f == ("global", "functools.reduce") and len(args) == 3 and not kws and args[0][0] == "lambda" and len(args[0][1]) == 2 \
                     and args[1][0] in ("tuple", "list") and 1 <= len(args[1][1]) <= 6 and not any(x[0] == "star" for x in args[1][1]):
@@ -1395,6 +1408,8 @@ class FunctionTerms:
             for op, c in zip(e.ops, e.comparators):
                 right = self.ev(c, env, ctx)
                 o = CMPOPS.get(type(op), "?")
+                if o in ("in", "not in"):
+                    right = _membership_container(right)
                 # canonical orientation: ``b > a`` is recorded as ``a < b`` (operands are still evaluated in source order)
                 parts.append(("cmp", {">": "<", ">=": "<="}[o], right, left) if o in (">", ">=") else ("cmp", o, left, right))
                 left = right
